@@ -1,5 +1,6 @@
-From Mds Require Import Common.ExtractBase Gen.ShellTable Shell.ShellModel Shell.ShellSpec Shell.ShellSession.
+From Mds Require Import Common.ExtractBase Gen.ShellTable Shell.ShellModel Shell.ShellSpec Shell.ShellSession Shell.ShellSessionExt.
 Require Extraction.
 Require Import ExtrOcamlBasic.
 Extraction "shell_model.ml" ShellModel.split ShellModel.split_from ShellModel.quote ShellModel.join ShellModel.run_ops ShellModel.run_opsx ShellModel.new_scanner
-  ShellSpec.ref_split ShellSpec.posix_words ShellSession.session_ok ShellSession.session_okx ShellSession.ref_rest base_types.
+  ShellSpec.ref_split ShellSpec.posix_words ShellSession.session_ok ShellSession.session_okx ShellSession.ref_rest
+  ShellSessionExt.step_ext ShellSessionExt.run_ext_st ShellSessionExt.new_ext ShellSessionExt.session_ok_ext base_types.
